@@ -1,22 +1,24 @@
 #!/bin/sh
-# usage: seedsweep.sh [tier]   applies every confirmed seeded change under seeded/ to /repo in turn, runs the
-# check(s) named in its meta.json (caught_by) and reports whether a VIOLATION line was printed.
-# /repo is restored after each one.  Do not run while other checks are building from /repo.
+# usage: seedsweep.sh [tier]   applies every confirmed seeded change under seeded/ in turn to a scratch worktree of
+# /repo (VERIF_REPO), runs the check(s) named in its meta.json (caught_by) there and reports whether a VIOLATION line
+# was printed.  /repo itself is not touched; evidence files are not rewritten.
 T=${1:-quick}
 cd /verif
-for D in seeded/*/; do
+for D in seeded/C*/; do
   ID=$(basename $D)
   CHECKS=$(python3 -c "
 import json,re,sys
 m=json.load(open('$D/meta.json'))
 print(' '.join(sorted(set(re.findall(r'\bC\d\d(?=[:/ ])', m.get('caught_by',''))))) or m['property'])")
-  (cd /repo && git apply /verif/$D/patch.diff) || { echo "$ID: PATCH DOES NOT APPLY"; continue; }
+  WT=/tmp/seed/sw-$$
+  git -C /repo worktree add -q --detach $WT HEAD || { echo "$ID: cannot create worktree"; continue; }
+  if ! ( cd $WT && git apply /verif/$D/patch.diff ); then echo "$ID: PATCH DOES NOT APPLY"; git -C /repo worktree remove --force $WT; continue; fi
   HIT=""
   for C in $CHECKS; do
-    N=$(./check $C $T 2>/dev/null | grep -c "^VIOLATION")
+    N=$(VERIF_REPO=$WT VERIF_REPLAY_NOEVIDENCE=1 ./check $C $T 2>/dev/null | grep -c "^VIOLATION")
     [ "$N" -gt 0 ] && HIT="$HIT $C($N)"
   done
-  (cd /repo && git checkout -- .)
+  git -C /repo worktree remove --force $WT
   if [ -n "$HIT" ]; then echo "$ID: caught by$HIT"; else echo "$ID: MISSED (checks run: $CHECKS)"; fi
 done
-git -C /repo status --short | head -3
+git -C /repo worktree prune
